@@ -5,7 +5,6 @@ import (
 	"sort"
 	"strings"
 
-
 	"verif/harness/gen"
 	"verif/harness/render"
 	"verif/harness/spec"
